@@ -20,6 +20,18 @@ RULE = ("one case = one complete schedule of the real code under the cooperative
         "must be 0 and every actor must have returned. "
         "Three modes: inbound table through a replica of the caller logic, inbound end to end "
         "(Resolver.ArenaResolveGraphQLResponse), subgraph end to end (Loader.loadByContext through the resolver). "
+        "Fourth mode, the SIZE-HINT table of the subgraph single flight (shard.sizes, shared by all leaders of one "
+        "fetchKey = data source + root fields, whatever their sfKey): the real GetOrCreateItem / Finish through a replica "
+        "of loadByContext's leader path on a fresh (cold) table per schedule; two and three leaders with DIFFERENT sfKeys "
+        "(other input, other headers hash) sharing one fetchKey, all interleavings, a third leader of another kind, the "
+        "rolling window driven over its fold at 50 samples, seeded random schedules of 3-5 leaders over 1-2 kinds and 1-2 "
+        "shards with empty responses; the window between Finish's LoadOrStore of the empty entry and its first record is "
+        "opened by a harness-owned parking point (the command (pub i) performs that LoadOrStore on the real table on the "
+        "finisher's behalf, see harness/cmd/c11/hint.go); hints handed to the leaders and the final (count, totalBytes) of "
+        "every entry (reflection) are compared with the LTS of coq/C11/ModelHint.v, and no_panic / each_returns / "
+        "hint_is_mean / hint_window are evaluated on the implementation's values. The thorough tier adds a stress stream: "
+        "GetOrCreateItem / Finish from 3-5 goroutines on 4 x 20000 cold fetch kinds under -race (only a panic fails). "
+        "A size-hint case is non-trivial when a leader is elected while the entry of its kind is published but empty. "
         "A case is distinct by the hash of its line and non-trivial when some actor's LoadOrStore found another "
         "actor's entry (it parked at the follower yield point), i.e. two actors overlap inside the window between "
         "one's LoadOrStore and the other's close.")
@@ -57,6 +69,12 @@ def classify(case, detail):
 def _distribution(cases):
     d = {"mode": {}, "actors": {}, "answers": {}, "cancels": 0, "results": {}, "followers": 0, "steps": 0}
     for c in cases:
+        if c.startswith("(c11h ") or c.startswith("(c11s "):
+            k = "size-hint" if c.startswith("(c11h ") else "size-hint-stress"
+            d["mode"][k] = d["mode"].get(k, 0) + 1
+            d["steps"] += len(re.findall(r"\(\((?:start|rel|ans|pub) ", c))
+            d["hint_windows_opened"] = d.get("hint_windows_opened", 0) + len(re.findall(r"\(\(pub \d+\)", c))
+            continue
         m = re.match(r"\(c11 (\w+) ", c)
         if not m:
             continue
@@ -109,7 +127,8 @@ def run(chk, only_cases=None):
         "64-bit xxhash keys treated as injective (the model keys on the abstract key; the harness maps an abstract key to "
         "request id / variables hash / headers hash resp. data source id / input / headers hash, varying one ingredient at a time)",
         "modelled by hand and tied by correspondence: inbound_request_singleflight.go, the single-flight part of "
-        "Resolver.ArenaResolveGraphQLResponse, subgraph_request_singleflight.go (GetOrCreateItem/Finish; size hints left out), "
+        "Resolver.ArenaResolveGraphQLResponse, subgraph_request_singleflight.go (GetOrCreateItem/Finish; the size-hint table as an "
+        "LTS of its own whose actors are the leaders, every election order allowed), "
         "Loader.loadByContext; the maxConcurrency semaphore, tracing, response headers/status propagation are left out",
         "harness/cmd/c11: cooperative scheduler (verif yield hook, gated DataSource, goroutine wait-state inspection for "
         "'blocked in select'), per-actor contexts whose Err() names the actor, LoaderHooks.OnFinished as the observation "
@@ -123,6 +142,12 @@ def run(chk, only_cases=None):
         "subgraph table: a follower of a leader whose load panicked gets res.out = nil, err = nil from loadByContext (the "
         "deferred Finish releases the item with nothing published); the spec accepts exactly this as 'the shared work "
         "failed' (the loader reports it as an empty response of the subgraph)",
+        "size-hint table: Go int modelled as Z with truncating division, absence of wrap-around proved for response "
+        "lengths M with 50 * M < 2^63; the window inside Finish (after close(loaded)) has no verif yield point in /repo: the "
+        "harness performs Finish's LoadOrStore(&fetchSize{}) itself before the actor runs the real Finish -- equivalent for "
+        "every other actor because Delete / close concern only the finisher's own sfKey, which no other actor of a "
+        "size-hint schedule uses; the entry type is unexported (a zero value is made by reflection from an entry a real "
+        "Finish created); item.response / sizeHint are accessed through reflect/unsafe",
         "progress is proved as 'some non-cancel action is enabled' (no wedge); 'eventually returns' needs weak fairness of the "
         "scheduler and an upstream that answers; the harness drives every schedule to quiescence and checks everybody returned",
     ]
@@ -154,6 +179,9 @@ def run(chk, only_cases=None):
         else:
             b = _run(chk, rexe, model, state, samples, "gen -seed %d -n %d -tier quick" % (chk.seed + 7, 1500), "race", dist)
             chk.coverage["race_detector"] = "no report" if b else "run failed (see violations)"
+            # the size-hint window hit for real: GetOrCreateItem / Finish from several goroutines on cold fetch kinds
+            b = _run(chk, rexe, model, state, samples, "stress -seed %d -n 20000 -rounds 4" % chk.seed, "stress", dist)
+            chk.coverage["size_hint_stress"] = "4 x 20000 cold fetch kinds, 3-5 goroutines, -race: %s" % ("ran" if b else "run failed")
 
     def more(st):
         for k in range(1, 4):
